@@ -129,7 +129,8 @@ func (fr *Frame) callFn(st *State, site ssa.Instruction, fn *ssa.Function, args 
 			v.lastCallQual = fn.Pkg.Pkg.Name() + "." + fn.Name()
 		}
 	}
-	if full == "github.com/consensys/gnark-crypto/internal/parallel.Execute" && len(args) >= 2 {
+	isLocalExecute := fn.Name() == "execute" && fn.Signature.Recv() == nil && fn.Signature.Params().Len() == 3 && fn.Signature.Variadic() && pkgOf(fn) != nil && strings.HasPrefix(pkgOf(fn).Pkg.Path(), "github.com/consensys/gnark-crypto/")
+	if (full == "github.com/consensys/gnark-crypto/internal/parallel.Execute" || isLocalExecute) && len(args) >= 2 {
 		if tc := fr.topContract(); tc != nil && tc.Options["execute-as-range"] != "" {
 			if fv, isF := args[1].(*FuncV); isF && fv.Fn != nil {
 				// "option execute-as-range": parallel.Execute(n, work) is executed as work(0, n). Execute hands work
@@ -247,6 +248,14 @@ func (fr *Frame) inline(st *State, fn *ssa.Function, args []Value, bindings []Va
 	}
 	for i, p := range fn.Params {
 		env[p] = args[i]
+		if fn.Parent() != nil && nf.anchors {
+			// the parameters of a closure executed in place are visible to the annotations of its loops (unless an
+			// outer variable of that name already is)
+			if _, taken := st.srcVar[p.Name()]; !taken {
+				st.srcVar[p.Name()] = args[i]
+				st.srcAdr[p.Name()] = false
+			}
+		}
 	}
 	for i, fv := range fn.FreeVars {
 		if i >= len(bindings) {
@@ -999,6 +1008,39 @@ func (fr *Frame) invokeAbstract(st *State, site ssa.Instruction, iv *IfaceV, cc 
 func (fr *Frame) builtin(st *State, site ssa.Instruction, b *ssa.Builtin, cc *ssa.CallCommon, args []Value) Value {
 	F := fr.v.F
 	switch b.Name() {
+	case "close":
+		if tc := fr.topContract(); tc == nil || tc.Options["channels-as-log"] == "" {
+			unsup("channel operation in %s", fr.fn.Name())
+		}
+		if fr.anchorsOn() {
+			fr.v.lastCallQual = ""
+			st.srcVar["callarg0"], st.srcAdr["callarg0"] = args[0], false
+			fr.anchor(st, "beforecall", "close", -1)
+			fr.anchor(st, "call", "close", -1)
+		}
+		return nil
+	case "Slice":
+		// unsafe.Slice(ptr, n) under "option unsafe-views": a view of n elements with ARBITRARY contents, modelled as a
+		// slice of its own: reads through the view are over-approximated, writes through it are NOT reflected in the
+		// object it views - nothing may be stated about the contents of that object (recorded as an assumption)
+		if tc := fr.topContract(); tc == nil || tc.Options["unsafe-views"] == "" {
+			unsup("unsafe.Slice")
+		}
+		n, okn := args[1].(*Term)
+		if !okn {
+			unsup("unsafe.Slice length")
+		}
+		fr.oblige(st, "bounds:unsafe", F.Le(F.I64(0), n), "unsafe.Slice: non-negative length")
+		fr.v.assume("unsafe.Slice view (option unsafe-views): modelled as a separate slice with arbitrary contents; writes through the view are not reflected in the viewed object, whose contents are therefore not spoken about")
+		fr.v.fresh++
+		sv := fr.v.symSlice(fmt.Sprintf("unsafeview!%d", fr.v.fresh), site.(ssa.Value).Type().Underlying().(*types.Slice).Elem(), false, false).(*SliceV)
+		st.pc = F.And(st.pc, F.Eq(sv.Len, n), F.Eq(sv.Cap, n))
+		if sv.Obj != nil {
+			if c, okc := fr.v.initMem[sv.Obj]; okc {
+				st.mem[sv.Obj] = c
+			}
+		}
+		return sv
 	case "len", "cap":
 		switch a := args[0].(type) {
 		case *SliceV:
